@@ -93,6 +93,8 @@ func (t *IterableType) IsAssignable(o px.Type, g px.Guard) bool {
 		et = OneCharStringType
 	case *TupleType:
 		return tupleAssignableTo(o, t.typ, g)
+	case *IterableType:
+		et = o.typ
 	default:
 		return false
 	}
